@@ -60,6 +60,7 @@ type Engine struct {
 	windows    map[int]*windowInfo
 	tableRegions []*Region
 	eagerPrune   bool
+	familyRegs   map[string]*Region
 	deadline     time.Time
 	feasN        int
 	inlinedExt   map[string]bool
@@ -465,10 +466,44 @@ func (e *Engine) dynArr(st *State, r *Region) *Term {
 	return v.(*Term)
 }
 
+// familyElem returns the object that element idx of a slice-of-pointers parameter points to.
+func (e *Engine) familyElem(st *State, r *Region, idx *Term) *PtrVal {
+	if e.familyRegs == nil {
+		e.familyRegs = map[string]*Region{}
+	}
+	idx = st.sub(idx)
+	key := fmt.Sprintf("%d:%s", r.id, idx.Key())
+	fr, ok := e.familyRegs[key]
+	if !ok {
+		name := fmt.Sprintf("%s[%s]", r.name, trunc(idx.Key(), 40))
+		fr = e.newRegion(name, r.family, false)
+		fr.lazy = true
+		fr.familyOf = r
+		e.familyRegs[key] = fr
+	}
+	p := &PtrVal{reg: fr, typ: types.NewPointer(r.family)}
+	for _, inv := range e.invariantsOfValue(st, p, p.typ, fr.name) {
+		st.assume(inv.t)
+	}
+	return p
+}
+
 // load through a pointer
 func (e *Engine) load(st *State, p *PtrVal, fr *Frame) Value {
 	if p.null {
 		e.fail("load through nil pointer")
+	}
+	if p.reg.family != nil {
+		if p.reg.aliasPtr != nil {
+			c := st.sub(mkEq(p.sym, p.reg.aliasIdx))
+			if knownTrue(st, c) {
+				return p.reg.aliasPtr
+			}
+			if !knownFalse(st, c) {
+				return &forkLoad{cond: c, a: p.reg.aliasPtr, b: e.familyElem(st, p.reg, p.sym)}
+			}
+		}
+		return e.familyElem(st, p.reg, p.sym)
 	}
 	if p.reg.dyn {
 		if p.sym == nil {
@@ -1319,6 +1354,24 @@ func (e *Engine) execFrom(st *State, fr *Frame, b *ssa.BasicBlock, prev *ssa.Bas
 				}
 			default:
 				e.execInstr(st, fr, in)
+				if v, ok := in.(ssa.Value); ok {
+					if fl, ok := fr.vals[v].(*forkLoad); ok {
+						st2 := st.fork()
+						fr2 := fr.fork()
+						st.assume(fl.cond)
+						st2.assume(mkNot(fl.cond))
+						fr.vals[v] = fl.a
+						fr2.vals[v] = fl.b
+						var out []Exit
+						if !st.infeasible() {
+							out = append(out, e.guarded(st, func() []Exit { return e.execFrom(st, fr, b, prev, idx+1) })...)
+						}
+						if !st2.infeasible() {
+							out = append(out, e.guarded(st2, func() []Exit { return e.execFrom(st2, fr2, b, prev, idx+1) })...)
+						}
+						return out
+					}
+				}
 			}
 		}
 		e.fail("fell off the end of block %d in %s", b.Index, fr.fn)
@@ -1590,6 +1643,12 @@ func (e *Engine) indexAddr(st *State, fr *Frame, in *ssa.IndexAddr) Value {
 	}
 	e.fail("IndexAddr on unsupported value")
 	return nil
+}
+
+// forkLoad: a load whose result depends on a condition that must be path-split (aliased family element)
+type forkLoad struct {
+	cond *Term
+	a, b Value
 }
 
 // splitPtr marks a pointer whose index must be case-split (array of aggregates).
